@@ -10,6 +10,10 @@ import CdiProofs.Props.C05
 namespace Cdi.Encode
 open Cdi Cdi.Schema Cdi.Generated
 
+/-- F8: every keyword of the shipped schema files is one the Lean `Schema` term represents (the only
+exception being the misspelt "ref", which draft-07 ignores) — so `builtinSchema` below is the schema -/
+theorem F8_schema_fully_modelled : Generated.schemaIgnoredKeywords = ["ref"] := by decide
+
 /-- integer fields within the Go types of specs-go/config.go; hook timeouts within 0..2^32-1 -/
 def nodeInRange (d : DeviceNode) : Prop :=
   -9223372036854775808 ≤ d.major ∧ d.major ≤ 9223372036854775807 ∧
